@@ -16,7 +16,7 @@
 From Coq Require Import ZArith Reals SpecFloat.
 From Flocq Require Import Core BinarySingleNaN.
 Require Import Base Value Float PrintOptions Printer ParseOptions Utf8 Reader Scan Num NumberOps Parser.
-Require Import ReaderProofs TokenProofs NumTokenProofs DecimalProofs RadixProofs ClingerProofs FloatLiteralProofs.
+Require Import ReaderProofs TokenProofs NumTokenProofs DecimalProofs RadixProofs ClingerProofs FloatLiteralProofs FuelProofs FiniteFloat.
 Local Open Scope N_scope.
 
 (* unsigned decimal digit strings *)
@@ -152,6 +152,50 @@ Theorem C05_signed_decimal_literal_fast_correct : forall alpha std_parse fuel r 
     B2R b = round radix2 (SpecFloat.fexp 53 1024) ZnearestE (dec_value (lit_sig (d :: ip) fs) (lit_exp_exact fs ex)).
 Proof. exact tok_signed_decimal_fast. Qed.
 Print Assumptions C05_signed_decimal_literal_fast_correct.
+
+(* Never an infinity, never a NaN. Whatever text the number routines are given
+   - every radix, sign, digit string of any length, fraction, exponent of any
+   size - a float they return is a finite double: the one multiplication that
+   can overflow is followed by the infinity test that turns it into
+   NumberOutOfRange, a division by a power of ten cannot overflow, a u64 and a
+   table power of ten are finite doubles, and 0 * infinity cannot arise in the
+   power-of-two radixes because the significand of an over-long integer is at
+   least 1. Holds in the default build outright; in the build without
+   fast-float-parsing under the stated assumption on str::parse::<f64> (it
+   returns a double that is an infinity or finite, never a NaN). Entry points
+   of the tokenizer: parse_num_token (digit-initial and signed tokens),
+   parse_radix_literal (#b #o #d #x) and parse_number (octets of byte vectors);
+   the digit-initial arm under leading_digit_symbols runs parse_num_literal. *)
+Theorem C05_never_infinite_or_nan : forall fast std_parse,
+  (fast = false -> forall s e, is_infinite_f64 (std_parse s e) = false -> finb (std_parse s e)) ->
+  forall fuel radix pos r n r', (radix = 2 \/ radix = 8 \/ radix = 10 \/ radix = 16) ->
+  (parse_num_token fast std_parse fuel radix pos r = (Ok n, r') \/
+   parse_radix_literal fast std_parse fuel radix r = (Ok n, r') \/
+   parse_num_literal fast std_parse fuel radix pos r = (Ok n, r') \/
+   parse_number fast std_parse fuel r = (Ok n, r')) ->
+  match n with Float f => is_finite_f64 f = true | _ => True end.
+Proof.
+  intros fast std_parse Hstd fuel radix pos r n r' Hr H.
+  assert (Hn : fin_num n).
+  { destruct H as [H|[H|[H|H]]].
+    - pose proof (num_token_finite fast std_parse Hstd fuel radix pos Hr r) as Hq. rewrite H in Hq. exact Hq.
+    - pose proof (radix_literal_finite fast std_parse Hstd fuel radix Hr r) as Hq. rewrite H in Hq. exact Hq.
+    - pose proof (num_literal_finite fast std_parse Hstd fuel radix pos Hr r) as Hq. rewrite H in Hq. exact Hq.
+    - pose proof (number_finite fast std_parse Hstd fuel r) as Hq. rewrite H in Hq. exact Hq. }
+  destruct n; try exact I. apply finb_finite. exact Hn.
+Qed.
+Print Assumptions C05_never_infinite_or_nan.
+
+(* the oracle assumption is met by the model's own correctly rounded conversion on
+   concrete arguments, and a too-large literal is rejected, not returned as infinity *)
+Example C05_out_of_range_witness :
+  (match from_trait default_ro (fun _ => true) true dec_to_f64 SrcSlice (bytes_events (s2b "1e400")) with
+   | PErr (XErr (ESyntax NumberOutOfRange _ _)) => true | _ => false end) &&
+  (match from_trait default_ro (fun _ => true) true dec_to_f64 SrcSlice (bytes_events (s2b "#xFFFFFFFFFFFFFFFFFFFF")) with
+   | POk (Number (Float f)) => is_finite_f64 f | _ => false end) &&
+  (match from_trait default_ro (fun _ => true) false dec_to_f64 SrcSlice (bytes_events (s2b "-2e308")) with
+   | PErr (XErr (ESyntax NumberOutOfRange _ _)) => true | _ => false end) = true.
+Proof. vm_compute. reflexivity. Qed.
 
 (* the hypotheses are satisfiable: "31.4159E-1" has digits 314159 and exponent -1 - 4 = -5 *)
 Example C05_decimal_nonvacuous :
